@@ -1,16 +1,110 @@
 /-
   C01 — conversion succeeds exactly between units of identical dimensionality.
+
+  Model: `Registry.getDimensionality` (`_get_dimensionality[_recurse]`), `Registry.convFactor`,
+  `Registry.convertPlain` (`_get_conversion_factor`, `_convert`).
 -/
-import PintModel.Proofs.DimLemmas
+import PintModel.Proofs.DimHom
+import PintModel.Proofs.RootLemmas
 import PintModel.Props.C04
 import PintModel.Gen.DefaultRegistry
 
 namespace Pint.Props.C01
 open Pint Pint.UC Pint.Registry
 
-/-- the compatibility relation: both dimensionalities are defined and equal as dicts -/
+/-- the compatibility relation all predicates compute: both dimensionalities are defined and
+    `==` as dicts -/
 def Compat (R : Registry) (a b : UC) : Prop :=
   ∃ da db, R.getDimensionality a = .ok da ∧ R.getDimensionality b = .ok db ∧ da.beq db = true
+
+/-! ### dimensionality of products, quotients and powers -/
+
+/-- every dimensionality the registry reports is in canonical form -/
+theorem dim_canon (R : Registry) {u du : UC} (h : R.getDimensionality u = .ok du) : du.Canon :=
+  R.getDim_canon h
+
+theorem dim_mul (R : Registry) {a b da db : UC} (hn : a.keys.Nodup)
+    (ha : R.getDimensionality a = .ok da) (hb : R.getDimensionality b = .ok db) :
+    ∃ dab, R.getDimensionality (a.mul b) = .ok dab ∧ dab.beq (da.mul db) = true := by
+  obtain ⟨dab, h1, h2, h3⟩ := R.getDim_merge 1 hn ha hb
+  rw [← mul_eq_merge] at h1
+  refine ⟨dab, h1, (C04.eq_iff h2 (C04.canon_mul (R.getDim_canon ha) db)).mpr ?_⟩
+  intro d
+  rw [h3 d, C04.exp_mul da (R.getDim_canon hb).1, Rat.one_mul]
+
+theorem dim_div (R : Registry) {a b da db : UC} (hn : a.keys.Nodup)
+    (ha : R.getDimensionality a = .ok da) (hb : R.getDimensionality b = .ok db) :
+    ∃ dab, R.getDimensionality (a.div b) = .ok dab ∧ dab.beq (da.div db) = true := by
+  obtain ⟨dab, h1, h2, h3⟩ := R.getDim_merge (-1) hn ha hb
+  rw [← div_eq_merge] at h1
+  refine ⟨dab, h1, (C04.eq_iff h2 (C04.canon_div (R.getDim_canon ha) db)).mpr ?_⟩
+  intro d
+  rw [h3 d, C04.exp_div da (R.getDim_canon hb).1, Rat.neg_mul, Rat.one_mul, Rat.sub_eq_add_neg]
+
+theorem dim_pow (R : Registry) (r : Rat) {a da : UC}
+    (ha : R.getDimensionality a = .ok da) :
+    ∃ dr, R.getDimensionality (a.pow r) = .ok dr ∧ dr.beq (da.pow r) = true := by
+  obtain ⟨dr, h1, h2, h3⟩ := R.getDim_pow r ha
+  refine ⟨dr, h1, (C04.eq_iff h2 (C04.canon_pow (R.getDim_canon ha) r)).mpr ?_⟩
+  intro d
+  rw [h3 d, C04.exp_pow (R.getDim_canon ha).1, Rat.mul_comm]
+
+/-! ### the relation is an equivalence, preserved by products, quotients and powers -/
+
+theorem compat_refl (R : Registry) {a da : UC} (h : R.getDimensionality a = .ok da) : Compat R a a :=
+  ⟨da, da, h, h, (C04.eq_iff (R.getDim_canon h) (R.getDim_canon h)).mpr (fun _ => rfl)⟩
+
+theorem compat_symm (R : Registry) {a b : UC} (h : Compat R a b) : Compat R b a := by
+  obtain ⟨da, db, ha, hb, he⟩ := h
+  refine ⟨db, da, hb, ha, ?_⟩
+  have := (C04.eq_iff (R.getDim_canon ha) (R.getDim_canon hb)).mp he
+  exact (C04.eq_iff (R.getDim_canon hb) (R.getDim_canon ha)).mpr (fun k => (this k).symm)
+
+theorem compat_trans (R : Registry) {a b c : UC} (h1 : Compat R a b) (h2 : Compat R b c) : Compat R a c := by
+  obtain ⟨da, db, ha, hb, he⟩ := h1
+  obtain ⟨db', dc, hb', hcc, he'⟩ := h2
+  rw [hb] at hb'; cases hb'
+  refine ⟨da, dc, ha, hcc, ?_⟩
+  have e1 := (C04.eq_iff (R.getDim_canon ha) (R.getDim_canon hb)).mp he
+  have e2 := (C04.eq_iff (R.getDim_canon hb) (R.getDim_canon hcc)).mp he'
+  exact (C04.eq_iff (R.getDim_canon ha) (R.getDim_canon hcc)).mpr (fun k => (e1 k).trans (e2 k))
+
+private theorem equiv_of_beq (R : Registry) {a b da db : UC}
+    (ha : R.getDimensionality a = .ok da) (hb : R.getDimensionality b = .ok db) (he : da.beq db = true) :
+    Equiv da db := (C04.eq_iff (R.getDim_canon ha) (R.getDim_canon hb)).mp he
+
+theorem compat_mul (R : Registry) {a a' b b' : UC} (hn : a.keys.Nodup) (hn' : a'.keys.Nodup)
+    (h1 : Compat R a a') (h2 : Compat R b b') : Compat R (a.mul b) (a'.mul b') := by
+  obtain ⟨da, da', ha, ha', hea⟩ := h1
+  obtain ⟨db, db', hb, hb', heb⟩ := h2
+  obtain ⟨d1, p1, c1, v1⟩ := R.getDim_merge 1 hn ha hb
+  obtain ⟨d2, p2, c2, v2⟩ := R.getDim_merge 1 hn' ha' hb'
+  rw [← mul_eq_merge] at p1 p2
+  refine ⟨d1, d2, p1, p2, (C04.eq_iff c1 c2).mpr ?_⟩
+  intro d
+  rw [v1 d, v2 d, equiv_of_beq R ha ha' hea d, equiv_of_beq R hb hb' heb d]
+
+theorem compat_div (R : Registry) {a a' b b' : UC} (hn : a.keys.Nodup) (hn' : a'.keys.Nodup)
+    (h1 : Compat R a a') (h2 : Compat R b b') : Compat R (a.div b) (a'.div b') := by
+  obtain ⟨da, da', ha, ha', hea⟩ := h1
+  obtain ⟨db, db', hb, hb', heb⟩ := h2
+  obtain ⟨d1, p1, c1, v1⟩ := R.getDim_merge (-1) hn ha hb
+  obtain ⟨d2, p2, c2, v2⟩ := R.getDim_merge (-1) hn' ha' hb'
+  rw [← div_eq_merge] at p1 p2
+  refine ⟨d1, d2, p1, p2, (C04.eq_iff c1 c2).mpr ?_⟩
+  intro d
+  rw [v1 d, v2 d, equiv_of_beq R ha ha' hea d, equiv_of_beq R hb hb' heb d]
+
+theorem compat_pow (R : Registry) (r : Rat) {a a' : UC} (h1 : Compat R a a') :
+    Compat R (a.pow r) (a'.pow r) := by
+  obtain ⟨da, da', ha, ha', hea⟩ := h1
+  obtain ⟨d1, p1, c1, v1⟩ := R.getDim_pow r ha
+  obtain ⟨d2, p2, c2, v2⟩ := R.getDim_pow r ha'
+  refine ⟨d1, d2, p1, p2, (C04.eq_iff c1 c2).mpr ?_⟩
+  intro d
+  rw [v1 d, v2 d, equiv_of_beq R ha ha' hea d]
+
+/-! ### conversion succeeds exactly on the relation -/
 
 /-- different dimensionality: `DimensionalityError`, and no number is returned -/
 theorem C01_error_kind (R : Registry) {a b da db : UC}
@@ -21,7 +115,7 @@ theorem C01_error_kind (R : Registry) {a b da db : UC}
     unfold convFactor; rw [ha, hb]; simp [hne]
   exact ⟨h1, by unfold convertPlain; rw [h1]⟩
 
-/-- a multiplicative conversion that returns a number implies equal dimensionality -/
+/-- a conversion that returns a number implies equal dimensionality -/
 theorem C01_success_implies_compat (R : Registry) {a b da db : UC} {x y : Rat}
     (ha : R.getDimensionality a = .ok da) (hb : R.getDimensionality b = .ok db)
     (hy : R.convertPlain x a b = .ok y) : da.beq db = true := by
@@ -31,31 +125,37 @@ theorem C01_success_implies_compat (R : Registry) {a b da db : UC} {x y : Rat}
     have := (C01_error_kind R ha hb h x).2
     rw [this] at hy; cases hy
 
-/-- equal dimensionality: the conversion is the multiplication by the root factor of `a / b`
-    (it succeeds exactly when that expansion succeeds — see `C01_default_wf`) -/
-theorem C01_success (R : Registry) {a b da db u : UC} {f : Rat}
+/-- the biconditional: for units with integer exponents whose expansions are exact
+    (`WFint`, both root expansions defined), the conversion returns a number iff the
+    dimensionalities are equal -/
+theorem C01_convert_iff (R : Registry) (hW : R.WFint) {a b da db ua ub : UC} {fa fb : Rat}
+    (hIa : IntUC a) (hIb : IntUC b) (hn : a.keys.Nodup)
     (ha : R.getDimensionality a = .ok da) (hb : R.getDimensionality b = .ok db)
-    (he : da.beq db = true) (hr : R.getRootUnits (a.div b) = .ok (f, u)) (x : Rat) :
-    R.convertPlain x a b = .ok (x * f) := by
-  unfold convertPlain convFactor; rw [ha, hb]; simp [he, hr]
+    (ra : R.getRootUnits a = .ok (fa, ua)) (rb : R.getRootUnits b = .ok (fb, ub)) (x : Rat) :
+    (∃ y, R.convertPlain x a b = .ok y) ↔ da.beq db = true := by
+  constructor
+  · rintro ⟨y, hy⟩; exact C01_success_implies_compat R ha hb hy
+  · intro he
+    obtain ⟨f, u, h1, _, _⟩ := R.getRootUnits_div hW hIa hIb hn ra rb
+    refine ⟨x * f, ?_⟩
+    unfold convertPlain convFactor; rw [ha, hb]; simp [he, h1]
 
-/-- the predicates are the relation by construction: `is_compatible_with`, `check` compare
-    dimensionalities with the same `==` -/
-theorem C01_compat_symm (R : Registry) {a b : UC} (h : Compat R a b)
-    (hc : ∀ u d, R.getDimensionality u = .ok d → d.Canon) : Compat R b a := by
-  obtain ⟨da, db, ha, hb, he⟩ := h
-  refine ⟨db, da, hb, ha, ?_⟩
-  have := (C04.eq_iff (hc _ _ ha) (hc _ _ hb)).mp he
-  exact (C04.eq_iff (hc _ _ hb) (hc _ _ ha)).mpr (fun k => (this k).symm)
+/-! ### non-vacuity on the bundled registry (whole-table definedness: see `C20_all`, `C02_default_wfint`) -/
 
-theorem C01_compat_trans (R : Registry) {a b c : UC} (h1 : Compat R a b) (h2 : Compat R b c)
-    (hc : ∀ u d, R.getDimensionality u = .ok d → d.Canon) : Compat R a c := by
-  obtain ⟨da, db, ha, hb, he⟩ := h1
-  obtain ⟨db', dc, hb', hcc, he'⟩ := h2
-  rw [hb] at hb'; cases hb'
-  refine ⟨da, dc, ha, hcc, ?_⟩
-  have e1 := (C04.eq_iff (hc _ _ ha) (hc _ _ hb)).mp he
-  have e2 := (C04.eq_iff (hc _ _ hb) (hc _ _ hcc)).mp he'
-  exact (C04.eq_iff (hc _ _ ha) (hc _ _ hcc)).mpr (fun k => (e1 k).trans (e2 k))
+theorem ok_of_toOption {ε α : Type} {x : Except ε α} {v : α} (h : x.toOption = some v) : x = .ok v := by
+  cases x with
+  | ok a => simp [Except.toOption] at h; rw [h]
+  | error e => simp [Except.toOption] at h
+
+set_option maxRecDepth 100000 in
+example : Compat Gen.defaultRegistry [("inch", 1)] [("kilometer", 1)] :=
+  ⟨[("[length]", 1)], [("[length]", 1)], ok_of_toOption (by decide +kernel), ok_of_toOption (by decide +kernel),
+    by decide +kernel⟩
+
+set_option maxRecDepth 100000 in
+example : ∃ da db, Gen.defaultRegistry.getDimensionality [("newton", 1)] = .ok da ∧
+    Gen.defaultRegistry.getDimensionality [("joule", 1)] = .ok db ∧ da.beq db = false :=
+  ⟨[("[mass]", 1), ("[length]", 1), ("[time]", -2)], [("[mass]", 1), ("[length]", 2), ("[time]", -2)],
+    ok_of_toOption (by decide +kernel), ok_of_toOption (by decide +kernel), by decide +kernel⟩
 
 end Pint.Props.C01
